@@ -10,6 +10,16 @@
     `List Nat`; an index `≥ sizes.length` stands for a `File` that is not in the torrent
     (`files.index(file)` raises `ValueError`);
   * `sliceTo xs k` is Python's `xs[:k]` (negative `k` counts from the end).
+
+  Second batch (lists of integers, pairs):
+  * a Python list of integers is a `List Int`; `pyRange a b` is `list(range(a, b))`, `getIdx xs i`
+    is `xs[i]` (`none` = IndexError; negative `i` counts from the end), `xs.remove(x)` is
+    `List.erase` behind a membership test (ValueError), `x in xs` is `List.contains`;
+  * a `set` of integers that is only ever `add`ed to and finally handed to `sorted(…)` is the
+    list of the added values in insertion order; `sortedSet` is `sorted(set(…))`: the strictly
+    ascending list with the same members (`sortedSet_pairwise`, `mem_sortedSet`);
+  * `for a, b in <pairs>`: the list of pairs is the list of its second components (`sizes`), a
+    first component is the index of its pair.
 -/
 namespace Torf.Loop
 
@@ -30,5 +40,81 @@ def Out.bind {α β : Type} : Out α → (α → Out β) → Out β
 /-- Python's `xs[:k]` -/
 def sliceTo (xs : List Int) (k : Int) : List Int :=
   if k ≥ 0 then xs.take k.toNat else xs.take (xs.length - (-k).toNat)
+
+/-- an optional value (`none`: the Python expression raises `exc`) followed by the rest -/
+def Out.ofOption {α : Type} (o : Option α) (exc : String) : Out α :=
+  match o with
+  | some v => .ret v
+  | none => .raised exc
+
+@[simp] theorem Out.ofOption_some {α : Type} (v : α) (e : String) : Out.ofOption (some v) e = .ret v := rfl
+@[simp] theorem Out.ofOption_none {α : Type} (e : String) : (Out.ofOption none e : Out α) = .raised e := rfl
+
+/-- Python's `xs[i]`; `none` is IndexError -/
+def getIdx {α : Type} (xs : List α) (i : Int) : Option α :=
+  if i ≥ 0 then xs[i.toNat]?
+  else if (-i).toNat ≤ xs.length then xs[xs.length - (-i).toNat]? else none
+
+/-- `list(range(a, b))` -/
+def pyRange (a b : Int) : List Int := (List.range (b - a).toNat).map (fun (k : Nat) => a + (k : Int))
+
+/-- insertion into a strictly ascending list (nothing happens if the value is there already) -/
+def insertAsc (x : Int) : List Int → List Int
+  | [] => [x]
+  | y :: ys => if x < y then x :: y :: ys else if x = y then y :: ys else y :: insertAsc x ys
+
+/-- `sorted(s)` for the set `s` whose `add`ed values are `xs` -/
+def sortedSet (xs : List Int) : List Int := xs.foldr insertAsc []
+
+theorem mem_insertAsc (x y : Int) (l : List Int) : y ∈ insertAsc x l ↔ y = x ∨ y ∈ l := by
+  induction l with
+  | nil => simp [insertAsc]
+  | cons z zs ih =>
+    unfold insertAsc
+    split
+    · simp
+    · split
+      · rename_i h; subst h; simp
+      · simp only [List.mem_cons, ih]
+        constructor
+        · rintro (h | h | h) <;> simp [h]
+        · rintro (h | h | h) <;> simp [h]
+
+theorem pairwise_insertAsc (x : Int) (l : List Int) (h : l.Pairwise (· < ·)) :
+    (insertAsc x l).Pairwise (· < ·) := by
+  induction l with
+  | nil => simp [insertAsc]
+  | cons z zs ih =>
+    unfold insertAsc
+    rw [List.pairwise_cons] at h
+    split
+    · rename_i hlt
+      refine List.pairwise_cons.mpr ⟨?_, List.pairwise_cons.mpr h⟩
+      intro a ha
+      rcases List.mem_cons.mp ha with rfl | ha
+      · exact hlt
+      · exact Int.lt_trans hlt (h.1 a ha)
+    · split
+      · exact List.pairwise_cons.mpr h
+      · rename_i h1 h2
+        refine List.pairwise_cons.mpr ⟨?_, ih h.2⟩
+        intro a ha
+        rcases (mem_insertAsc x a zs).mp ha with rfl | ha
+        · omega
+        · exact h.1 a ha
+
+/-- `sortedSet` is strictly ascending … -/
+theorem sortedSet_pairwise (xs : List Int) : (sortedSet xs).Pairwise (· < ·) := by
+  induction xs with
+  | nil => simp [sortedSet]
+  | cons x xs ih => exact pairwise_insertAsc x _ ih
+
+/-- … and has exactly the added values as members -/
+theorem mem_sortedSet (xs : List Int) (y : Int) : y ∈ sortedSet xs ↔ y ∈ xs := by
+  induction xs with
+  | nil => simp [sortedSet]
+  | cons x xs ih =>
+    show y ∈ insertAsc x (sortedSet xs) ↔ _
+    rw [mem_insertAsc, ih]; simp
 
 end Torf.Loop
